@@ -75,8 +75,22 @@ def setup_tree() -> Dict[str, Any]:
             return f"<{name}:{type(model).__name__}>"
         return type(name, (BaseRenderer,), {"render_db": classmethod(render_db), "render": classmethod(render),
                                             "__module__": "verif.e1"})
+    def mk_nested(name, base, types):
+        # the documented way to customise a few model types: subclass a default renderer, start from its
+        # registry and replace some handlers - here those of models that are rendered inside another one
+        from pydbml import classes as C
+        reg = dict(base.model_renderers)
+        for tn in types:
+            def handler(model, _n=name, _tn=tn):
+                return f"<{_n}:{_tn}:{getattr(model, 'name', None) or getattr(model, 'subject_names', '')}>"
+            reg[getattr(C, tn)] = handler
+        return type(name, (base,), {"model_renderers": reg, "__module__": "verif.e1"})
+    from pydbml.renderer.sql.default import DefaultSQLRenderer
+    from pydbml.renderer.dbml.default import DefaultDBMLRenderer
     _state["renderers"] = {"default": None, "tagged": (mk("TagSQL"), mk("TagDBML")),
-                           "bare": (mk_bare("BareSQL"), mk_bare("BareDBML"))}
+                           "bare": (mk_bare("BareSQL"), mk_bare("BareDBML")),
+                           "nested": (mk_nested("NestedSQL", DefaultSQLRenderer, ("Column", "Index", "EnumItem")),
+                                      mk_nested("NestedDBML", DefaultDBMLRenderer, ("Column", "Index", "EnumItem")))}
     return _state
 
 
@@ -118,10 +132,15 @@ def code_key(c: Any) -> List[Any]:
 FOCUS_FILES = ("parser.py", "blueprints.py", "database.py")
 
 
+CUSTOM = ("tagged", "bare", "nested")
+RENDERED = ("default", "nested")     # flavours whose texts are part of the compared result
+WANT = {"default": 2, "nested": 3}   # index of the pristine digest a result is compared with (else 1: content only)
+
+
 def call_parse(text: str, ap: bool, rend: str) -> Any:
     st = _state
     kw: Dict[str, Any] = {"allow_properties": ap}
-    if rend in ("tagged", "bare"):
+    if rend in CUSTOM:
         kw["sql_renderer"], kw["dbml_renderer"] = st["renderers"][rend]
     return st["PyDBML"](text, **kw)
 
@@ -133,13 +152,17 @@ def content_digest(db: Any, with_render: bool = True) -> Tuple[str, Dict[str, An
     snap = snapshot(db)
     sq = snap.pop("sql_renderer", None)
     dq = snap.pop("dbml_renderer", None)
+    def h(f: Any) -> Any:
+        try:
+            return hashlib.sha256(f().encode("utf8", "surrogatepass")).hexdigest()[:16]
+        except Exception as ex:
+            return ["exc", type(ex).__name__]
     for lang, qn in (("dbml", dq), ("sql", sq)):
-        if with_render and qn is not None and qn.startswith("pydbml.renderer."):
-            try:
-                text = getattr(db, lang)
-                snap["_" + lang] = hashlib.sha256(text.encode("utf8", "surrogatepass")).hexdigest()[:16]
-            except Exception as ex:
-                snap["_" + lang] = ["exc", type(ex).__name__]
+        if with_render and qn is not None and (qn.startswith("pydbml.renderer.") or qn.startswith("verif.e1.Nested")):
+            # the elements on their own first (what table.dbml gives before the database was ever rendered),
+            # then the database
+            snap["_el_" + lang] = [h(lambda: getattr(o, lang)) for o in list(db.tables) + list(db.enums)]
+            snap["_" + lang] = h(lambda: getattr(db, lang))
     return snap_digest(snap), snap
 
 
@@ -152,7 +175,12 @@ def outcome_of(text: str, ap: bool) -> List[str]:
         return ["exc", type(e).__name__]
     if type(db).__name__ != "Database":
         return ["other", type(db).__name__]
-    return ["db", content_digest(db, False)[0], content_digest(db, True)[0]]
+    out = ["db", content_digest(db, False)[0], content_digest(db, True)[0]]
+    try:
+        out.append(content_digest(call_parse(text, ap, "nested"), True)[0])
+    except Exception as e:
+        out.append("exc:" + type(e).__name__)
+    return out
 
 
 # ---------------------------------------------------------------------- pristine + calibration
@@ -317,7 +345,7 @@ def gen_workload(rseed: int, tier: str) -> Dict[str, Any]:
             r = g.random()
             if nres == 0 or r < 0.55:
                 ap = {"F": False, "T": True}.get(ap_mode, g.random() < 0.5)
-                rend = "default" if rend_mode == "default" else g.choice(["default", "tagged", "bare"])
+                rend = "default" if rend_mode == "default" else g.choice(["default", "tagged", "bare", "nested"])
                 dsel = g.choice(pool)
                 op_ = ["parse", dsel, ap, rend]
                 if pristine[f"{dsel}:1"][0] == "db" and g.random() < 0.2:
@@ -444,16 +472,17 @@ def execute(wl: Dict[str, Any], policy: S.Policy, step_cap: int = 20_000_000) ->
         if type(res).__name__ != "Database":
             viol("content", "content:not-a-database", {"where": where, "doc": name, "got": type(res).__name__})
             return None
-        full = rend == "default"
+        full = rend in RENDERED
+        wi = WANT.get(rend, 1)
         dig, snap = content_digest(res, full)
         if want[0] != "db":
             viol("content", "content:invalid-doc-returned-db", {"where": where, "doc": name, "pristine": want})
             return dig
-        if dig != want[2 if full else 1]:
+        if dig != want[wi]:
             viol("content", "content:differs-from-pristine",
-                 {"where": where, "doc": name, "allow_properties": ap, "want": want[2 if full else 1], "got": dig,
+                 {"where": where, "doc": name, "allow_properties": ap, "renderers": rend, "want": want[wi], "got": dig,
                   "got_summary": summary(snap)})
-        if rend in ("tagged", "bare"):
+        if rend in CUSTOM:
             tq = tuple(st["renderers"][rend])
             if res.sql_renderer is not tq[0] or res.dbml_renderer is not tq[1] or res.allow_properties != ap:
                 viol("content", "content:options-not-applied", {"where": where, "doc": name})
@@ -492,7 +521,7 @@ def execute(wl: Dict[str, Any], policy: S.Policy, step_cap: int = 20_000_000) ->
             if th is not None:
                 th.untraced -= 1
         kw: Dict[str, Any] = {"allow_properties": ap}
-        if rend in ("tagged", "bare"):
+        if rend in CUSTOM:
             kw["sql_renderer"], kw["dbml_renderer"] = st["renderers"][rend]
         return st["PyDBML"](pathlib.Path(fp), **kw)
 
@@ -544,7 +573,7 @@ def execute(wl: Dict[str, Any], policy: S.Policy, step_cap: int = 20_000_000) ->
                     if exc is not None:
                         exc.__traceback__ = None
                     if dig is not None:
-                        live[(t, len(slots))] = {"db": res, "expected": dig, "doc": doc, "full": rend == "default"}
+                        live[(t, len(slots))] = {"db": res, "expected": dig, "doc": doc, "full": rend in RENDERED}
                         try:
                             weak.append((where + ":db", weakref.ref(res)))
                             for tb in res.tables:
